@@ -11,17 +11,19 @@ FX2 == { {}, {"L"}, {"U"}, {"L","U"}, {"G"}, {"G","L"}, {"G","U"}, {"N"}, {"N","
 FY2 == { {}, {"L"}, {"U"}, {"L","U"}, {"G","L"}, {"N","U"}, {"P"} }
 FX3 == { {}, {"L"}, {"U"}, {"L","U"}, {"G","L"}, {"N","U"}, {"P"} }
 FY3 == { {"L"}, {"U"}, {"L","U"}, {"N","L"} }
+FYq == { {"L","U"}, {"N","L"} }
+Shapes4 == { <<0,1,2,3>>, <<0,1,2,2>> }
+FX4 == { {"L"}, {"U"}, {"N","U"}, {"G","L"} }
 Seq2 == <<"x", "y">>
 VARIABLES shape, types, fx, fy
 allvars == <<prog, stk, res, err, shape, types, fx, fy>>
 FlagsOf(i, n) == IF n = NameSeq[1] THEN fx[i] ELSE fy[i]
 Mk == WithModuleGlobals([i \in 1..Len(shape) |-> [type |-> types[i], parent |-> shape[i], flags |-> [n \in Names |-> FlagsOf(i, n)]]])
-Valid == /\ types[1] = "module" /\ \A i \in 2..Len(shape) : types[i] # "module"
-         /\ \A i \in 1..Len(shape) : ("P" \in fx[i] \/ "P" \in fy[i]) => types[i] = "function"
+TypesOK == types[1] = "module" /\ \A i \in 2..Len(shape) : types[i] # "module"
 Init == /\ shape \in Shapes
-        /\ types \in [1..Len(shape) -> {"module", "function", "class"}]
-        /\ fx \in [1..Len(shape) -> FlagsX] /\ fy \in [1..Len(shape) -> FlagsY]
-        /\ Valid
+        /\ types \in [1..Len(shape) -> {"module", "function", "class"}] /\ TypesOK
+        /\ fx \in [1..Len(shape) -> FlagsX] /\ (\A i \in 1..Len(shape) : "P" \in fx[i] => types[i] = "function")
+        /\ fy \in [1..Len(shape) -> FlagsY] /\ (\A i \in 1..Len(shape) : "P" \in fy[i] => types[i] = "function")
         /\ prog = Mk /\ err = "" /\ res = [b \in 1..Len(shape) |-> NoRes]
         /\ stk = <<Frame(1, NIL, {}, {})>>
 SpecMC == Init /\ [][Next /\ UNCHANGED <<shape, types, fx, fy>>]_allvars
